@@ -11,7 +11,7 @@ SCOPES = {
     "C05": [(VOL, 400, 50), ("analysis:highest,lowest", 60, 24), ("arith", 40, 60)],
     "C06": [(MOM, 400, 50), ("arith", 40, 60)],
     "C07": [("ind:ALL", 300, 40), ("amorph:ALL", 100, 40)],
-    "C08": [("hexital", 200, 40), ("hexital.ha", 60, 40), ("hexital.life", 60, 40), ("ind:ALL", 100, 40)],
+    "C08": [("hexital", 200, 40), ("hexital.ha", 60, 40), ("hexital.life", 60, 40), ("ind:ALL", 100, 40), ("settings", 150, 12)],
     "C09": [("ind:ALL", 400, 50), ("manager.fill", 60, 50), ("arith", 40, 60)],
     "C10": [("ind:ALL", 300, 50), ("arith", 40, 60)],
     "C13": [("hexital", 300, 40)],
